@@ -249,6 +249,110 @@ theorem cross_swap_symmetric (c : ℕ) (hc : 0 < c) (dk : ℝ) (F : DebFrame ℝ
   show _ / (_ * ((F.n2 + F.n1 : ℕ) : ℝ)) = _
   rw [Nat.add_comm F.n2 F.n1]
 
+/-! ### the unit of length is a convention (real numbers) -/
+
+/-- the same frame with every coordinate and box length multiplied by `u` -/
+noncomputable def scaleLen (u : ℝ) (F : DebFrame ℝ) : DebFrame ℝ :=
+  { F with R1 := fun i x => u * F.R1 i x, R2 := fun j x => u * F.R2 j x, L := fun x => u * F.L x }
+
+theorem miComp_scale (u : ℝ) (hu : 0 < u) (a b L : ℝ) : miComp (u * a) (u * b) (u * L) = u * miComp a b L := by
+  unfold miComp
+  simp only [absS_eq, HasFloor_floor, dec_eq]
+  rw [← mul_sub, abs_mul, abs_of_pos hu, mul_div_mul_left _ _ hu.ne']
+  ring
+
+theorem miDist_scale (u : ℝ) (hu : 0 < u) (p q L : ℕ → ℝ) :
+    miDist (fun x => u * p x) (fun x => u * q x) (fun x => u * L x) = u * miDist p q L := by
+  unfold miDist
+  simp only [miComp_scale u hu, Transc_sqrt]
+  rw [show u * miComp (p 0) (q 0) (L 0) * (u * miComp (p 0) (q 0) (L 0)) + u * miComp (p 1) (q 1) (L 1) * (u * miComp (p 1) (q 1) (L 1))
+        + u * miComp (p 2) (q 2) (L 2) * (u * miComp (p 2) (q 2) (L 2))
+      = u ^ 2 * (miComp (p 0) (q 0) (L 0) * miComp (p 0) (q 0) (L 0) + miComp (p 1) (q 1) (L 1) * miComp (p 1) (q 1) (L 1)
+        + miComp (p 2) (q 2) (L 2) * miComp (p 2) (q 2) (L 2)) by ring]
+  rw [Real.sqrt_mul (sq_nonneg u), Real.sqrt_sq hu.le]
+
+theorem pairTerm_scale (u : ℝ) (hu : 0 < u) (F : DebFrame ℝ) (k : ℝ) (i j : ℕ) :
+    pairTerm (scaleLen u F) (k / u) i j = pairTerm F k i j / u := by
+  unfold pairTerm scaleLen
+  dsimp only
+  split
+  · rw [miDist_scale u hu]
+    unfold sincTerm
+    simp only [Lit_ofNat, Nat.cast_zero, Transc_sin]
+    by_cases hr : 0 < miDist (F.R1 i) (F.R2 j) F.L
+    · rw [if_pos (mul_pos hu hr), if_pos hr]
+      rw [show k / u * (u * miDist (F.R1 i) (F.R2 j) F.L) = k * miDist (F.R1 i) (F.R2 j) F.L by field_simp]
+      field_simp
+    · have : ¬ 0 < u * miDist (F.R1 i) (F.R2 j) F.L := fun h => hr (by
+        rcases (mul_pos_iff.mp h) with ⟨_, h2⟩ | ⟨h1, _⟩
+        · exact h2
+        · exact absurd hu (not_lt.mpr h1.le))
+      rw [if_neg this, if_neg hr]
+  · simp
+
+/-- **coordinates in metres, ångström or reduced units give the same ω̂**: multiply every coordinate and box length by
+`u > 0` and divide the wavenumber spacing by `u` — every frame value is unchanged (pair distances below any absolute
+threshold in the new unit included: there is no absolute length in the computation). -/
+theorem frameOmega_length_unit (u : ℝ) (hu : 0 < u) (self : Bool) (c : ℕ) (hc : 0 < c) (dk : ℝ) (F : DebFrame ℝ) (q : ℕ) :
+    frameOmega self c (dk / u) (scaleLen u F) q = frameOmega self c dk F q := by
+  rw [frameOmega_eq self c hc, frameOmega_eq self c hc]
+  have hk : dk / u * ((q + 1 : ℕ) : ℝ) = dk * ((q + 1 : ℕ) : ℝ) / u := by ring
+  have hv : ∀ s, visited s (scaleLen u F) (dk / u * ((q + 1 : ℕ) : ℝ)) = visited s F (dk * ((q + 1 : ℕ) : ℝ)) / u := by
+    intro s
+    unfold visited
+    rw [hk]
+    simp only [pairTerm_scale u hu]
+    show ∑ i ∈ range F.n1, ∑ j ∈ Ico (jStart s i) F.n2, _ = _
+    rw [Finset.sum_div]
+    apply Finset.sum_congr rfl; intro i _
+    rw [Finset.sum_div]
+  rw [hv true, hv false, hk]
+  have hn1 : (scaleLen u F).n1 = F.n1 := rfl
+  have hn2 : (scaleLen u F).n2 = F.n2 := rfl
+  rw [hn1, hn2]
+  have hu' : u ≠ 0 := hu.ne'
+  split
+  · congr 2
+    by_cases hd : dk * ((q + 1 : ℕ) : ℝ) * (F.n1 : ℝ) = 0
+    · rw [hd]; rw [show dk * ((q + 1 : ℕ) : ℝ) / u * (F.n1 : ℝ) = (dk * ((q + 1 : ℕ) : ℝ) * (F.n1 : ℝ)) / u by ring, hd]; simp
+    · field_simp
+  · by_cases hd : dk * ((q + 1 : ℕ) : ℝ) * ((F.n1 + F.n2 : ℕ) : ℝ) = 0
+    · rw [hd]; rw [show dk * ((q + 1 : ℕ) : ℝ) / u * ((F.n1 + F.n2 : ℕ) : ℝ) = (dk * ((q + 1 : ℕ) : ℝ) * ((F.n1 + F.n2 : ℕ) : ℝ)) / u by ring, hd]; simp
+    · field_simp
+
+/-! ### molecule labels are names: only their equality matters (any scalar type, also `Float`) -/
+
+section
+variable {α : Type} [Add α] [Sub α] [Mul α] [Div α] [Neg α] [Lit α] [Transc α] [HasFloor α] [LT α] [DecidableLT α]
+
+/-- the same frame with every molecule label renamed by `f` -/
+def renameMol (f : ℕ → ℕ) (F : DebFrame α) : DebFrame α := { F with M1 := fun i => f (F.M1 i), M2 := fun j => f (F.M2 j) }
+
+theorem pairTerm_renameMol (f : ℕ → ℕ) (hf : Function.Injective f) (F : DebFrame α) (k : α) (i j : ℕ) :
+    pairTerm (renameMol f F) k i j = pairTerm F k i j := by
+  unfold pairTerm renameMol
+  simp only [hf.eq_iff]
+
+/-- **renaming the molecules changes nothing**: for every injective renaming of the labels (labels shifted beyond 2³¹, hashed
+ids, any order, contiguous or not), every chunk count and every wavenumber, `_calculate` returns the same number — executed
+arithmetic, not only the real-number value. -/
+theorem frameOmega_renameMol (f : ℕ → ℕ) (hf : Function.Injective f) (self : Bool) (c : ℕ) (dk : α) (F : DebFrame α) (q : ℕ) :
+    frameOmega self c dk (renameMol f F) q = frameOmega self c dk F q := by
+  have hrow : ∀ k i a, rowAcc self (renameMol f F) k i a = rowAcc self F k i a := by
+    intro k i a; unfold rowAcc; simp only [pairTerm_renameMol (α := α) f hf]; rfl
+  have hchunk : ∀ k i0 i1, chunkAcc self (renameMol f F) k i0 i1 = chunkAcc self F k i0 i1 := by
+    intro k i0 i1; unfold chunkAcc; simp only [hrow]
+  unfold frameOmega
+  simp only [hchunk]
+  rfl
+
+theorem debyer_renameMol (f : ℕ → ℕ) (hf : Function.Injective f) (self : Bool) (c : ℕ) (dk : α) (nframes : ℕ)
+    (frame : ℕ → DebFrame α) (q : ℕ) :
+    debyer self c dk nframes (fun t => renameMol f (frame t)) q = debyer self c dk nframes frame q := by
+  unfold debyer
+  simp only [frameOmega_renameMol (α := α) f hf]
+end
+
 /-! ### schedules: every interleaving of the per-chunk update streams (any scalar type, also `Float`) -/
 
 section
